@@ -11,7 +11,7 @@ import register_crypto_plugin                         # noqa: E402,F401  (regist
 from bec2format import Bf3File, Bf3Component, Bec2File  # noqa: E402
 from bec2format.bf3file import BF3_FILE_SIG, DEFAULT_SESSION_KEY  # noqa: E402
 
-ZERO_KEY = bytes(16)
+ZERO_KEY = bytes(16)          # (value; gen_key hands out the library's own constant OBJECT and equal fresh objects)
 
 
 def chars(s):
@@ -134,6 +134,12 @@ def gen_desc(r, budget=210):
             break
         ln = min(maxlen, r.choice([0, 1, 1, 2, 4, 7, 16, 60]) if r.random() < 0.9 else maxlen)
         v = bytes(r.randrange(256) for _ in range(ln))
+        if t in (0xC1, 0xC2, 0xC3, 0xC4, 0xC5, 0xC6) and r.random() < 0.7 and maxlen >= 3:
+            # tags the library interprets: values that are NUMERICALLY one of its constants but not the one-byte constant
+            # (leading / trailing zero bytes), and the constants themselves - to the format these are just tag values
+            k = r.choice([0, 1, 2, 3])
+            v = r.choice([bytes([k]), b"\x00" + bytes([k]), b"\x00\x00" + bytes([k]), bytes([k]) + b"\x00", b""])
+            ln = len(v)
         if t == 0xC2 and v == b"\x02":
             v = b"\x00"                      # plain components only here; encrypted ones are generated explicitly
         d[t] = v
@@ -150,7 +156,9 @@ def gen_plain_comp(r):
 def gen_key(r):
     k = r.random()
     if k < 0.25:
-        return ZERO_KEY
+        # the documented default key: the library's constant object itself, or an equal object made here (b"".join defeats
+        # constant folding / interning) - identity must not matter
+        return DEFAULT_SESSION_KEY if r.random() < 0.5 else b"".join([bytes(8), bytes(8)])
     b = bytearray(r.randrange(256) for _ in range(16))
     if k < 0.45:
         z = r.choice([1, 2, 3])
